@@ -452,13 +452,15 @@ func repoGarbageCollect(repo Repo, conf config.Config, index types.Index, locked
 		}
 	}
 	seen := map[digest.Digest]bool{}
+	walked := map[digest.Digest]bool{}
 	// walk all manifests to note seen digests
 	for len(manifests) > 0 {
 		// work from tail to make deletes easier
 		d := manifests[len(manifests)-1]
 		manifests = manifests[:len(manifests)-1]
 		inIndex[d.Digest] = true
-		if seen[d.Digest] {
+		// a digest seen as a config or layer of another image still needs to be walked as a manifest
+		if walked[d.Digest] {
 			continue
 		}
 		br, err := repo.blobGet(d.Digest, locked)
@@ -466,6 +468,7 @@ func repoGarbageCollect(repo Repo, conf config.Config, index types.Index, locked
 			continue
 		}
 		seen[d.Digest] = true
+		walked[d.Digest] = true
 		// parse manifests for descriptors (manifests, config, layers)
 		if types.MediaTypeIndex(d.MediaType) {
 			man := types.Index{}
